@@ -5,7 +5,7 @@
 CONSTANTS
   BUF = 3
   MaxSends = @@MAXS@@
-  MaxSlow = 7
+  MaxSlow = 5
   Lims = @@LIMS@@
   Classes = @@CLS@@
   Faults = @@FAULTS@@
